@@ -414,7 +414,7 @@ impl<P, T> OccupiedEntry<'_, P, T> {
     /// # #[cfg(not(feature = "ipnet"))]
     /// # fn main() {}
     /// ```
-    pub fn remove(&mut self) -> T {
+    pub fn remove(self) -> T {
         let value = self.node.value.take().unwrap();
         *self.count -= 1;
         value
